@@ -5,6 +5,18 @@ from props.C01 import set_group, MOD
 
 PROPERTY = "C02"
 LEVEL = "other"
+MANIFEST = dict(
+    text=("Mixed. PROVED for all operands (SET world, opaque operands, so for every polygon size and polyhedron shape): the dispatcher for the 10 type pairs in both orders and the method form; the composition handlers "
+          "inter_point_convexpolygon, inter_point_convexpolyhedron, inter_plane_convexpolygon, inter_segment_convexpolygon, inter_convexpolygon_halfline and inter_line_convexpolygon (line not in the polygon's plane) "
+          "return exactly f cap K given the contracts of their callees, only documented result types, no 'Bug detected' branch. BOUNDED (labelled, not counted as proved): the handlers that assemble results from hash sets "
+          "(coplanar line-polygon, line/plane/segment/half-line vs polyhedron and the aux_calc helpers) are checked on a catalogue of convex lattice bodies in oblique poses with f in generic and every designed degenerate position "
+          "against an exact rational oracle (parametric clipping / vertex enumeration)."),
+    note=("The proved compositions rest on the contracts of their callees, of which the polyhedron handlers and the coplanar branch are only bounded-checked (assumed contracts, listed in the evidence). "
+          "A1 real arithmetic, A4 hash sets deduplicate by ==, A5 admissions. The oracle and the catalogue generators are trusted code (self-tested)."),
+    technique="contract-based deductive verification of the composition handlers (ground EUF over membership atoms, z3) + labelled bounded stand-in with exact rational oracle for the hash-set handlers",
+    design_ref="DESIGN.md section 9 (C02)",
+)
+EXPLANATION = ("proved: dispatcher and 6 composition handlers for all operands; bounded stand-in (not counted as proved): hash-set based handlers on a catalogue with an exact oracle")
 ASSUMES = ["A1", "A2", "A4", "A5", "A6"]
 
 SET_HANDLERS = [
@@ -37,3 +49,18 @@ def groups(tier):
                 gs.append(Group("dispatch[%s,%s]" % (ta, tb), CI.dispatch_harness(ta, tb, calls), [MOD + ":intersection", "Geometry3D.geometry.body:GeoBody.intersection"],
                                 stubs=CI.recording_stubs(calls) + CI.membership_stubs(), world="SET", timeout_s=60, patches=False))
     return gs
+
+
+def bounded(tier, seed):
+    from g3dvc import bounded as B
+    nb, per = (6, 40) if tier == "quick" else (40, 120)
+    out = []
+    for body in ("Polygon", "Polyhedron"):
+        for kind in ("Point", "Line", "HalfLine", "Segment", "Plane"):
+            out.append(("%s vs %s catalogue" % (kind, body), B.flat_convex, (seed, kind, body, nb, per), 3000))
+    return out
+
+
+def replay_case(case):
+    from g3dvc import bounded as B
+    return B.replay_intersection(case)
